@@ -61,6 +61,25 @@ static void build_template(const std::string &prop)
             if (kv.second.size() >= 2)
                 groups.push_back(kv.second);
         grammar::set_rhyme_groups(groups);
+        // homophones: base spellings with identical pronunciations
+        std::map<std::string, std::vector<std::string>> by_pron;
+        for (const char *lg : { "en", "fr" }) {
+            const Lang &L = lang(lg);
+            for (auto &w : L.vocab) {
+                auto it = L.prons.find(w);
+                if (it == L.prons.end() || it->second.empty())
+                    continue;
+                std::string key = std::string(lg) + ":";
+                for (auto &ph : it->second)
+                    key += ph + " ";
+                by_pron[key].push_back(w);
+            }
+        }
+        std::vector<std::vector<std::string>> hom;
+        for (auto &kv : by_pron)
+            if (kv.second.size() >= 2)
+                hom.push_back(kv.second);
+        grammar::set_homophone_groups(hom);
     }
     std::vector<std::pair<std::string, int>> specs = { { "en", 2 }, { "enc", 1 }, { "fr", 1 }, { "enx", 1 } };
     if (prop == "C18")
@@ -1829,7 +1848,11 @@ struct Exec {
             if ((size_t)o.geti("d", 0) % ndec != d)
                 continue;
             const std::string &k = o.gets("op");
-            if ((k == "knobs" && (int)i < last_g) || k == "add_word" || (int)i == last_g) {
+            if (o.getb("prelude")) { // C07: part of the decoder state both executions start the probe from
+                Json o2 = o;
+                o2.set("d", 0);
+                c.push_back(o2);
+            } else if ((k == "knobs" && (int)i < last_g) || k == "add_word" || (int)i == last_g) {
                 Json o2 = o;
                 o2.set("d", 0);
                 c.push_back(o2);
@@ -2037,6 +2060,7 @@ struct Gen {
         push(op, d);
     }
     double json_rate = 0.0; // C14: share of queries that ask for the JSON result
+    bool after_prelude = false; // C07: the probe follows a whole-utterance prelude (see the C07 profile)
     bool builds_lattices = false; // C08: the probe's lattice is compared, so the word beam stays at its default or narrower as in C11/C12
     double lat_rate = 0.0; // C11/C12 (and C08's probe): share of queries that are lattice / N-best / posterior requests
     Json query(bool allow_align)
@@ -2095,6 +2119,8 @@ struct Gen {
             return;
         }
         int style = (int)r.below(8);
+        if (after_prelude && r.chance(0.5))
+            style = 8;
         int64_t left = N;
         int items = 0;
         bool first = true;
@@ -2113,6 +2139,10 @@ struct Gen {
             case 3: len = 160; rep = r.range(1, 60); break;
             case 4: len = 2048; rep = r.range(1, 6); break;
             case 5: len = r.range(1, 12000); break;
+            case 8: // after a prelude the cepstrum buffer holds 254-300 frames, the feature module's block 256: pieces that
+                    // carry 248-260 frames, the first of them either at once or after a short one
+                len = first && r.chance(0.5) ? r.range(1, 3000) : r.range(248, 260) * 160 + r.range(0, 159);
+                break;
             case 6: // a short piece, then pieces far longer than the internal cepstrum buffer (128 frames)
                 len = first ? r.range(1, 6000) : r.range(20000, 60000);
                 break;
@@ -2350,6 +2380,36 @@ struct DecWorld : World {
             std::string t = pick_tmpl(r);
             add_dec(t);
             bool full = r.chance(0.08);
+            if (r.chance(0.25)) {
+                // prelude: an earlier whole-utterance decode, long enough to enlarge the decoder's cepstrum buffer beyond the
+                // feature module's block for the rest of its life; made identically in the reference execution, so the
+                // probe after it is still compared under "same decoder state, other chunking"
+                Json g0 = Json::object();
+                g0.set("op", "grammar");
+                g0.set("g", grammar::gen_align(r, lang(lang_of(t)).vocab, {}));
+                g0.set("prelude", true);
+                g.push(g0, 0);
+                Json b = Json::object();
+                b.set("op", "begin");
+                Json sig = audio::random_spec(r, 48000, false, lang_of(t) == "fr" ? "goforward_fr" : "goforward");
+                sig.set("off", 0);
+                sig.set("n", (long long)r.range(40600, 48000));
+                b.set("sig", sig);
+                b.set("enc", "i16");
+                b.set("prelude", true);
+                g.push(b, 0);
+                Json f = Json::object();
+                f.set("op", "feed");
+                f.set("len", (long long)48000);
+                f.set("full", true);
+                f.set("prelude", true);
+                g.push(f, 0);
+                Json e = Json::object();
+                e.set("op", "end");
+                e.set("prelude", true);
+                g.push(e, 0);
+                g.after_prelude = true;
+            }
             g.utterance(0, t, true, true, false, full, MAX_CMP_SAMPLES, r.chance(0.5) ? 0.3 : 0.0, false, true);
         } else if (prop == "C08") {
             g.builds_lattices = true;
